@@ -152,10 +152,28 @@ func (x *Exec) viol(tag, class string, ev Event, detail string) *Viol {
 func peerNames(ps []string) []*net.UDPAddr {
 	var out []*net.UDPAddr
 	for _, p := range ps {
-		out = append(out, PeerSpec[p])
+		out = append(out, peerOf(p))
 	}
 
 	return out
+}
+
+// Mapped6 marks a peer name whose IPv4 address a request presents in the IPv6 form of the attribute (family 0x02,
+// ::ffff:a.b.c.d). The address named is the same IPv4 address: the server must treat the request exactly as it treats
+// the plain form (an IPv4 peer, whatever the encoding).
+const Mapped6 = "@6"
+
+func peerOf(name string) *net.UDPAddr { return PeerSpec[strings.TrimSuffix(name, Mapped6)] }
+
+// xorPeer appends XOR-PEER-ADDRESS for the named peer in the form its name asks for.
+func xorPeer(b *wire.B, name string) {
+	p := peerOf(name)
+	if strings.HasSuffix(name, Mapped6) {
+		b.XorAddr6(wire.AttrXORPeerAddress, p.IP, p.Port)
+
+		return
+	}
+	b.XorAddr(wire.AttrXORPeerAddress, p.IP, p.Port)
 }
 
 // Apply executes ev on the implementation and the model and compares the
@@ -343,8 +361,8 @@ func (x *Exec) Apply(ev Event) *Viol { //nolint:gocyclo,cyclop,maintidx,gocognit
 		a := m.Allocs[ev.C]
 		peers := peerNames(ev.Peers)
 		res := c.Request(wire.CreatePermission, nil, func(b *wire.B) {
-			for _, p := range peers {
-				b.XorAddr(wire.AttrXORPeerAddress, p.IP, p.Port)
+			for _, pn := range ev.Peers {
+				xorPeer(b, pn)
 			}
 		})
 		x.Trace = append(x.Trace, ev.String()+"->"+respStr(res))
@@ -389,7 +407,7 @@ func (x *Exec) Apply(ev Event) *Viol { //nolint:gocyclo,cyclop,maintidx,gocognit
 	case "chan":
 		c := w.C[ev.C]
 		a := m.Allocs[ev.C]
-		p := PeerSpec[ev.Peers[0]]
+		p := peerOf(ev.Peers[0])
 		lostResp := false
 		if ev.Fail == "respwrite" && a != nil && w.SrvSock != nil && c.Sock != nil && c.Nonce != "" {
 			if ex, ok := a.Chans[ev.N]; ok && ex.Peer.IP.Equal(p.IP) && ex.Peer.Port == p.Port {
@@ -399,7 +417,7 @@ func (x *Exec) Apply(ev Event) *Viol { //nolint:gocyclo,cyclop,maintidx,gocognit
 		}
 		res := c.Request(wire.ChannelBind, nil, func(b *wire.B) {
 			b.U32(wire.AttrChannelNumber, uint32(ev.N)<<16)
-			b.XorAddr(wire.AttrXORPeerAddress, p.IP, p.Port)
+			xorPeer(b, ev.Peers[0])
 		})
 		x.Trace = append(x.Trace, ev.String()+"->"+respStr(res))
 		if lostResp {
